@@ -336,7 +336,7 @@ def cases(ctx: Ctx):
     # (1) every command type through 0..4 layers
     ts = c06.t_slots()
     for n in range(0, 5):
-        for _ in range(500 if quick else 3000):
+        for _ in range(500 if quick else 8000):
             typ = rng.choice(["T", "T", "M", "P", "D"])
             if typ == "T":
                 present = [s for s in ts if rng.random() < rng.choice([0.1, 0.5, 0.9])]
